@@ -360,7 +360,8 @@ structure OkexShape where
   key0HasPrefix : Bool   -- `0x05 ++ CCMC address` prefix of `Ops[0].Key`
   key1IsEvm : Bool
 
-/-- okex `MakeDepositProposal`; `sideChain` = the registry lookup succeeded; `keccak` = `ethcrypto.Keccak256` -/
+/-- okex `MakeDepositProposal`; `sideChain` = the chain is registered (`GetSideChain` returns a record; an unregistered
+chain makes the handler dereference nil once the key-length test has passed); `keccak` = `ethcrypto.Keccak256` -/
 def depositOkex {α κ η χ C π μ τ : Type} [BEq η] [BEq μ] (V : Verifier α κ η χ C) (P : ProofRt η π μ τ) (keccak : μ → μ)
     (shape : π → OkexShape) (sideChain : Bool) (st : St η χ μ) (p : DepParam α κ η χ C π μ) : St η χ μ × Except Err τ :=
   match depHeader V st p with
@@ -373,9 +374,9 @@ def depositOkex {α κ η χ C π μ τ : Type} [BEq η] [BEq μ] (V : Verifier 
       | none => (st', .error .proof)
       | some proof =>
         let sh := shape proof
-        if !sideChain then (st', .error .nochain)
-        else if sh.nOps != 2 then (st', .error .proofsize)
+        if sh.nOps != 2 then (st', .error .proofsize)
         else if sh.key0Len != 53 then (st', .error .keylen)
+        else if !sideChain then (st', .error .panic)   -- `GetSideChain` returned (nil, nil): nil dereference
         else if !sh.key0HasPrefix then (st', .error .keyprefix)
         else if !sh.key1IsEvm then (st', .error .module)
         else if kp.isEmpty then (st', .error .kp)
